@@ -3,11 +3,19 @@ Helpers for the second part of the bridge (`ZkProofs/Props/ConcreteBridge2.lean`
 
 * RAW versions (core classes only, no laws: they make sense for the executable instance
   `Fr / G1Pt / G2Pt`) of the algebraic predicates that occur in the CONCLUSIONS of the abstract
-  soundness theorems: `linRaw` (`Sound.lin`), `ResponseRelationRaw` (`C04Bytes.ResponseRelation`),
-  `linZRaw` (`Sound.linZ`), `CbarRaw` (`Sound.Cbar`), and the lemmas that move the abstract predicates
-  to the raw ones along a `Transfer.Hom`.
-* Raw inversion of `coreProofVerify` / `coreCommitVerify` (the challenge equation), valid for every
-  instance of the model's signature.
+  soundness theorems: `linRaw` (`Sound.lin`), `initOfRaw` (`Sound.initOf`), `ResponseRelationRaw`
+  (`C04Bytes.ResponseRelation`), `linZRaw` (`Sound.linZ`), `CbarRaw` (`Sound.Cbar`), `CommitRelationRaw`
+  (`C06Bytes.CommitRelation`), `GeneratorCoincidenceRaw` (`C06Bytes.GeneratorCoincidence`), and the
+  lemmas that move the abstract predicates to the raw ones along a `Transfer.Hom` (`lin_nat`,
+  `initOf_nat`, `responseRelation_nat`, `linZ_nat`, `Cbar_nat`, `commitRelation_nat`,
+  `generatorCoincidence_nat`).
+* Raw inversion of `coreProofVerify` / `coreCommitVerify` (the challenge equation), and the theorems of
+  C04 / C06 that use no law, re-proved for EVERY instance of the model's signature (same proofs):
+  `raw_tamper_challenge` (with the map `challengeMap`), `raw_commit_tamper_challenge`,
+  `raw_deserializeAndValidateCommit_ok`, `raw_blind_sign_requires_valid_commit`,
+  `raw_blind_sign_refuses`.
+* `Hom.reprogram`: re-programming `expand` (the random oracle behind `hash_to_scalar`) on both sides
+  of a homomorphism; `ProofInitResult.map_injective`.
 -/
 import ZkProofs.Props.ConcreteBridge
 import ZkProofs.Props.C04Bytes
@@ -72,6 +80,214 @@ theorem coreProofVerify_challenge (env : Env S G1 G2) (cs : Suite G1) (pk : G2)
         · cases hc
         · rw [hcc]; exact hc
 
+/-- "Run `proof_verify_init` with the challenge field set to `c`, rebuild the challenge input"
+(the empty string if `proof_verify_init` fails): the map whose hash must be `c`. -/
+def challengeMap (env : Env S G1 G2) (cs : Suite G1) (pk : G2) (π : PoKSignature S G1)
+    (gens : Generators G1) (header ph : Option Bytes) (dm : List S) (di : List Nat)
+    (apiId : Option Bytes) (c : S) : Bytes :=
+  match proofVerifyInit env cs pk { π with challenge := c } gens header dm di apiId with
+  | .ok init => challengeInput env init di dm (ph.getD [])
+  | _ => []
+
+/-- **Changing the challenge field (every instance, arbitrary raw records).** If the proof with the
+challenge replaced by `c' ≠ c` is accepted, then `c'` is a fixed point of "run `proof_verify_init`
+with challenge `c`, rebuild the challenge input, hash" — `FixedPoint`, the map being the
+instance's own functions. -/
+theorem raw_tamper_challenge (env : Env S G1 G2) (cs : Suite G1) (pk : G2)
+    (π : PoKSignature S G1) (gens : Generators G1) (header ph : Option Bytes) (dm : List S)
+    (di : List Nat) (apiId : Option Bytes) (c' : S)
+    (h' : coreProofVerify env cs pk { π with challenge := c' } gens header ph dm di apiId = .ok ())
+    (hne : c' ≠ π.challenge) :
+    FixedPoint env cs (challengeMap env cs pk π gens header ph dm di apiId)
+      (apiId.getD [] ++ cs.h2s) π.challenge := by
+  obtain ⟨init, hi, hh⟩ := coreProofVerify_challenge env cs pk _ gens header ph dm di apiId h'
+  refine ⟨c', hne, ?_⟩
+  simp only [challengeMap, hi]
+  exact hh
+
+/-- The value `proof_verify_init` returns (`Sound.initOf`: `T1 = c•Bbar + ê•Abar + r̂1•D`,
+`T2 = c•(P1 + domain•Q1 + Σ dm_k•H_{di_k}) + r̂3•D + Σ m̂_j•H_{u_j}`) for an arbitrary instance. -/
+def initOfRaw (π : PoKSignature S G1) (base Q1 : G1) (Hs : List G1) (domain : S) (dm : List S)
+    (di : List Nat) : ProofInitResult S G1 :=
+  ⟨π.Abar, π.Bbar, π.D, π.challenge • π.Bbar + π.eCap • π.Abar + π.r1Cap • π.D,
+    π.challenge • (base + domain • Q1 + linRaw Hs di dm) + π.r3Cap • π.D
+      + linRaw Hs (getRemainingIndexes (π.mCap.length + di.length) di) π.mCap,
+    domain⟩
+
+/-! #### commitments -/
+
+/-- `Σ_i ss[i] • Js[i]` (`Sound.linZ`) for an arbitrary instance. -/
+def linZRaw (Js : List G1) (ss : List S) : G1 := ((Js.zip ss).map fun p => p.2 • p.1).sum
+
+/-- `Cbar = ŝ•Q2 + Σ m̂_i•J_i − c•C` (`Sound.Cbar`) for an arbitrary instance. -/
+def CbarRaw (C : G1) (z : ZKPoK S) (Q2 : G1) (Js : List G1) : G1 :=
+  z.sCap • Q2 + linZRaw Js z.mCap - z.challenge • C
+
+/-- `C06Bytes.CommitRelation` for an arbitrary instance (same formula). -/
+def CommitRelationRaw (c c' : Commitment S G1) (bg : List G1) : Prop :=
+  c'.commitment = c.commitment ∧ c'.proof.mCap.length = c.proof.mCap.length ∧
+    (c'.proof.sCap, c'.proof.mCap) ≠ (c.proof.sCap, c.proof.mCap) ∧
+    ∃ Q2 Js, bg.take (c.proof.mCap.length + 1) = Q2 :: Js ∧
+      (c'.proof.sCap - c.proof.sCap) • Q2
+        + (linZRaw Js c'.proof.mCap - linZRaw Js c.proof.mCap) = 0
+
+/-- `C06Bytes.GeneratorCoincidence` for an arbitrary instance. -/
+def GeneratorCoincidenceRaw (env : Env S G1 G2) (cs : Suite G1) : Prop :=
+  ∃ (n m i j : Nat) (g bg : Generators G1) (x : G1),
+    Generators.create env cs n (some cs.apiIdBlind) = .ok g ∧
+    Generators.create env cs m (some (Bytes.ofAscii "BLIND_" ++ cs.apiIdBlind)) = .ok bg ∧
+    g.values[i]? = some x ∧ bg.values[j]? = some x
+
+/-- `C06.deserializeAndValidateCommit_ok` for every instance (same proof; no law is used). -/
+theorem raw_deserializeAndValidateCommit_ok (env : Env S G1 G2) (cs : Suite G1)
+    (cwp : Option Bytes) (bgens : Generators G1) (apiId : Option Bytes) (C : G1)
+    (h : deserializeAndValidateCommit env cs cwp bgens apiId = .ok C) :
+    (cwp.getD [] = [] ∧ C = 0) ∨
+      ∃ c, Commitment.fromBytes env (cwp.getD []) = .ok c ∧ C = c.commitment ∧
+        c.proof.mCap.length + 1 ≤ bgens.values.length ∧
+        coreCommitVerify env cs c.commitment c.proof bgens.values (some (apiId.getD [])) = .ok () := by
+  unfold deserializeAndValidateCommit at h
+  dsimp only at h
+  split at h
+  · rename_i h0
+    left
+    exact ⟨List.length_eq_zero_iff.mp h0, by cases h; rfl⟩
+  · right
+    cases hc : Commitment.fromBytes env (cwp.getD []) with
+    | err => rw [hc] at h; cases h
+    | panic => rw [hc] at h; cases h
+    | ok c =>
+      rw [hc] at h; simp only at h
+      split at h
+      · cases h
+      · rename_i hlen
+        cases hv : coreCommitVerify env cs c.commitment c.proof bgens.values
+            (some (apiId.getD [])) with
+        | err => rw [hv] at h; cases h
+        | panic => rw [hv] at h; cases h
+        | ok u =>
+          rw [hv] at h; simp only [Res.ok.injEq] at h
+          exact ⟨c, rfl, h.symm, by omega, by rw [hv]⟩
+
+/-- `C06.blind_sign_requires_valid_commit` for every instance (same proof; purely structural). -/
+theorem raw_blind_sign_requires_valid_commit (env : Env S G1 G2) (cs : Suite G1) (sk : S) (pk : G2)
+    (cwp header : Option Bytes) (messages : Option (List Bytes)) (σ : Signature S G1)
+    (h : blindSign env cs sk pk cwp header messages = .ok σ) :
+    ∃ M gens bgens ms C B,
+      blindSignM (cwp.getD []).length = some M ∧
+      Generators.create env cs ((messages.getD []).length + 1) (some cs.apiIdBlind) = .ok gens ∧
+      Generators.create env cs (M + 1) (some (Bytes.ofAscii "BLIND_" ++ cs.apiIdBlind))
+        = .ok bgens ∧
+      messagesToScalar env cs (messages.getD []) cs.apiIdBlind = .ok ms ∧
+      calculateB gens (some C) ms = .ok B ∧
+      finalizeBlindSign env cs sk pk B gens bgens header (some cs.apiIdBlind) = .ok σ ∧
+      ((cwp.getD [] = [] ∧ C = 0) ∨
+        ∃ c, Commitment.fromBytes env (cwp.getD []) = .ok c ∧ C = c.commitment ∧
+          coreCommitVerify env cs c.commitment c.proof bgens.values (some cs.apiIdBlind)
+            = .ok ()) := by
+  unfold blindSign at h
+  dsimp only at h
+  cases hM : blindSignM (cwp.getD []).length with
+  | none => rw [hM] at h; cases h
+  | some M =>
+    rw [hM] at h; simp only at h
+    cases hg : Generators.create env cs ((messages.getD []).length + 1) (some cs.apiIdBlind) with
+    | err => rw [hg] at h; cases h
+    | panic => rw [hg] at h; cases h
+    | ok gens =>
+      rw [hg] at h; simp only at h
+      cases hbg : Generators.create env cs (M + 1)
+          (some (Bytes.ofAscii "BLIND_" ++ cs.apiIdBlind)) with
+      | err => rw [hbg] at h; cases h
+      | panic => rw [hbg] at h; cases h
+      | ok bgens =>
+        rw [hbg] at h; simp only at h
+        cases hd : deserializeAndValidateCommit env cs (some (cwp.getD [])) bgens
+            (some cs.apiIdBlind) with
+        | err => rw [hd] at h; cases h
+        | panic => rw [hd] at h; cases h
+        | ok C =>
+          rw [hd] at h; simp only at h
+          cases hm : messagesToScalar env cs (messages.getD []) cs.apiIdBlind with
+          | err => rw [hm] at h; cases h
+          | panic => rw [hm] at h; cases h
+          | ok ms =>
+            rw [hm] at h; simp only at h
+            cases hB : calculateB gens (some C) ms with
+            | err => rw [hB] at h; cases h
+            | panic => rw [hB] at h; cases h
+            | ok B =>
+              rw [hB] at h; simp only at h
+              refine ⟨M, gens, bgens, ms, C, B, rfl, rfl, hbg, rfl, hB, h, ?_⟩
+              rcases raw_deserializeAndValidateCommit_ok env cs _ bgens _ C hd with
+                h0 | ⟨c, h1, h2, _, h3⟩
+              · exact Or.inl h0
+              · exact Or.inr ⟨c, h1, h2, h3⟩
+
+/-- `C06.blind_sign_refuses` for every instance. -/
+theorem raw_blind_sign_refuses (env : Env S G1 G2) (cs : Suite G1) (sk : S) (pk : G2)
+    (cwp header : Option Bytes) (messages : Option (List Bytes)) (hne : cwp.getD [] ≠ [])
+    (hbad : ∀ c M bgens, Commitment.fromBytes env (cwp.getD []) = .ok c →
+      blindSignM (cwp.getD []).length = some M →
+      Generators.create env cs (M + 1) (some (Bytes.ofAscii "BLIND_" ++ cs.apiIdBlind))
+        = .ok bgens →
+      coreCommitVerify env cs c.commitment c.proof bgens.values (some cs.apiIdBlind) ≠ .ok ())
+    (σ : Signature S G1) : blindSign env cs sk pk cwp header messages ≠ .ok σ := by
+  intro h
+  obtain ⟨M, gens, bgens, ms, C, B, hM, _, hbg, _, _, _, hor⟩ :=
+    raw_blind_sign_requires_valid_commit env cs sk pk cwp header messages σ h
+  rcases hor with ⟨h0, _⟩ | ⟨c, hc, _, hv⟩
+  · exact hne h0
+  · exact hbad c M bgens hc hM hbg hv
+
+/-- A successful `core_commit_verify`, unfolded (every instance): the first `M + 1` blind generators
+are `Q2 :: Js` and the challenge is the hash of the challenge input rebuilt from
+`Cbar = (ŝ•Q2 + Σ m̂_i•J_i) + (−c)•C` (computed as the code does, `sumZip`). -/
+theorem coreCommitVerify_challenge (env : Env S G1 G2) (cs : Suite G1) (C : G1) (z : ZKPoK S)
+    (bg : List G1) (apiId : Option Bytes)
+    (h : coreCommitVerify env cs C z bg apiId = .ok ()) :
+    ∃ Q2 Js, bg.take (z.mCap.length + 1) = Q2 :: Js ∧
+      hashToScalar env cs
+        (blindChallengeInput env C (sumZip (z.sCap • Q2) Js z.mCap + (-z.challenge) • C) (Q2 :: Js))
+        (apiId.getD [] ++ cs.h2s) = .ok z.challenge := by
+  unfold coreCommitVerify at h
+  dsimp only at h
+  split at h
+  · cases h
+  · cases ht : bg.take (z.mCap.length + 1) with
+    | nil => rw [ht] at h; cases h
+    | cons Q2 Js =>
+      rw [ht] at h; simp only at h
+      refine ⟨Q2, Js, rfl, ?_⟩
+      cases hc : calculateBlindChallenge env cs C
+          (sumZip (z.sCap • Q2) Js z.mCap + (-z.challenge) • C) (Q2 :: Js) (some (apiId.getD []))
+        with
+      | err => rw [hc] at h; cases h
+      | panic => rw [hc] at h; cases h
+      | ok cv =>
+        rw [hc] at h; simp only at h
+        split at h
+        · cases h
+        · rename_i hne
+          have hcv : cv = z.challenge := not_not.mp hne
+          unfold calculateBlindChallenge at hc
+          split at hc
+          · cases hc
+          · subst hcv; exact hc
+
+/-- **Changing the challenge field of a commitment proof (every instance, raw records):**
+acceptance means the new challenge is a fixed point of "rebuild `Cbar` from `c`, hash". -/
+theorem raw_commit_tamper_challenge (env : Env S G1 G2) (cs : Suite G1) (C : G1) (z : ZKPoK S)
+    (bg : List G1) (apiId : Option Bytes) (c' : S)
+    (h' : coreCommitVerify env cs C { z with challenge := c' } bg apiId = .ok ())
+    (hne : c' ≠ z.challenge) :
+    ∃ Q2 Js, bg.take (z.mCap.length + 1) = Q2 :: Js ∧
+      FixedPoint env cs
+        (fun c => blindChallengeInput env C (sumZip (z.sCap • Q2) Js z.mCap + (-c) • C) (Q2 :: Js))
+        (apiId.getD [] ++ cs.h2s) z.challenge := by
+  obtain ⟨Q2, Js, ht, hh⟩ := coreCommitVerify_challenge env cs C _ bg apiId h'
+  exact ⟨Q2, Js, ht, c', hne, hh⟩
+
 end raw
 
 /-! ### moving the abstract predicates along a homomorphism -/
@@ -128,6 +344,80 @@ theorem responseRelation_nat (H : Hom env env' fS f1 f2) (π π' : PoKSignature 
   · have := congrArg f1 e2
     simpa only [PoKSignature.map_r3Cap, PoKSignature.map_mCap, PoKSignature.map_D, H.G1_add,
       H.G1_sub, H.G1_smul, H.S_sub, H.G1_zero, lin_nat H, List.length_map] using this
+
+theorem ProofInitResult.map_injective (H : Hom env env' fS f1 f2) :
+    Function.Injective (ProofInitResult.map (S := S) (G1 := G1) fS f1) := by
+  rintro ⟨a, b, d, t1, t2, dom⟩ ⟨a', b', d', t1', t2', dom'⟩ h
+  simp only [ProofInitResult.map_mk, ProofInitResult.mk.injEq] at h
+  obtain ⟨h1, h2, h3, h4, h5, h6⟩ := h
+  rw [H.f1_inj h1, H.f1_inj h2, H.f1_inj h3, H.f1_inj h4, H.f1_inj h5, H.fS_inj h6]
+
+theorem initOf_nat (H : Hom env env' fS f1 f2) (π : PoKSignature S G1) (base Q1 : G1)
+    (Hs : List G1) (d : S) (dm : List S) (di : List Nat) :
+    initOfRaw (π.map fS f1) (f1 base) (f1 Q1) (Hs.map f1) (fS d) (dm.map fS) di
+      = (Sound.initOf π base Q1 Hs d dm di).map fS f1 := by
+  simp only [initOfRaw, Sound.initOf, Sound.T1, Sound.T2, Sound.Bv, ProofInitResult.map_mk,
+    PoKSignature.map_Abar, PoKSignature.map_Bbar, PoKSignature.map_D, PoKSignature.map_eCap,
+    PoKSignature.map_r1Cap, PoKSignature.map_r3Cap, PoKSignature.map_mCap,
+    PoKSignature.map_challenge, H.G1_add, H.G1_smul, lin_nat H, List.length_map]
+
+theorem linZ_nat (H : Hom env env' fS f1 f2) (Js : List G1) (ss : List S) :
+    linZRaw (Js.map f1) (ss.map fS) = f1 (Sound.linZ Js ss) := by
+  induction Js generalizing ss with
+  | nil => simp only [linZRaw, List.map_nil, List.zip_nil_left, List.sum_nil, Sound.linZ_nil_left,
+      H.G1_zero]
+  | cons J Js ih =>
+    cases ss with
+    | nil => simp only [linZRaw, List.map_nil, List.zip_nil_right, List.sum_nil,
+        Sound.linZ_nil_right, H.G1_zero]
+    | cons s ss =>
+      have := ih ss
+      unfold linZRaw at this ⊢
+      simp only [List.map_cons, List.zip_cons_cons, List.sum_cons, Sound.linZ_cons, H.G1_add,
+        H.G1_smul, this]
+
+theorem Cbar_nat (H : Hom env env' fS f1 f2) (C : G1) (z : ZKPoK S) (Q2 : G1) (Js : List G1) :
+    CbarRaw (f1 C) (z.map fS) (f1 Q2) (Js.map f1) = f1 (Sound.Cbar C z Q2 Js) := by
+  simp only [CbarRaw, Sound.Cbar, ZKPoK.map_sCap, ZKPoK.map_mCap, ZKPoK.map_challenge, linZ_nat H,
+    H.G1_sub, H.G1_add, H.G1_smul]
+
+theorem commitRelation_nat (H : Hom env env' fS f1 f2) (c c' : Commitment S G1) (bg : List G1)
+    (h : C06Bytes.CommitRelation c c' bg) :
+    CommitRelationRaw (c.map fS f1) (c'.map fS f1) (bg.map f1) := by
+  obtain ⟨hC, hM, hne, Q2, Js, ht, e⟩ := h
+  refine ⟨congrArg f1 hC, ?_, ?_, f1 Q2, Js.map f1, ?_, ?_⟩
+  · simp only [Commitment.map_proof, ZKPoK.map_mCap, List.length_map, hM]
+  · intro heq
+    apply hne
+    simp only [Commitment.map_proof, ZKPoK.map_sCap, ZKPoK.map_mCap, Prod.mk.injEq] at heq ⊢
+    exact ⟨H.fS_inj heq.1, (List.map_injective_iff.mpr H.fS_inj) heq.2⟩
+  · simp only [Commitment.map_proof, ZKPoK.map_mCap, List.length_map, ← List.map_take, ht,
+      List.map_cons]
+  · have := congrArg f1 e
+    simpa only [Commitment.map_proof, ZKPoK.map_sCap, ZKPoK.map_mCap, H.G1_add, H.G1_sub,
+      H.G1_smul, H.S_sub, H.G1_zero, linZ_nat H] using this
+
+theorem generatorCoincidence_nat (H : Hom env env' fS f1 f2) (cs : Suite G1)
+    (h : C06Bytes.GeneratorCoincidence env cs) : GeneratorCoincidenceRaw env' (cs.map f1) := by
+  obtain ⟨n, m, i, j, g, bg, x, h1, h2, h3, h4⟩ := h
+  refine ⟨n, m, i, j, g.map f1, bg.map f1, f1 x, ok_of_map (Generators.create_transfer H cs _ _) h1,
+    ok_of_map (Generators.create_transfer H cs _ _) h2, ?_, ?_⟩
+  · rw [Generators.map_values, List.getElem?_map, h3]; rfl
+  · rw [Generators.map_values, List.getElem?_map, h4]; rfl
+
+/-- Re-programming `expand` (the random oracle behind `hash_to_scalar`) on both sides of a
+homomorphism gives a homomorphism. -/
+theorem Hom.reprogram (H : Hom env env' fS f1 f2)
+    (ex : Bool → Bytes → Bytes → Nat → Option Bytes) :
+    Hom { env with expand := ex } { env' with expand := ex } fS f1 f2 :=
+  { fS_inj := H.fS_inj, f1_inj := H.f1_inj, f2_inj := H.f2_inj, S_zero := H.S_zero,
+    S_one := H.S_one, S_add := H.S_add, S_sub := H.S_sub, S_neg := H.S_neg, S_mul := H.S_mul,
+    G1_zero := H.G1_zero, G1_add := H.G1_add, G1_sub := H.G1_sub, G1_neg := H.G1_neg,
+    G1_smul := H.G1_smul, G2_zero := H.G2_zero, G2_add := H.G2_add, G2_neg := H.G2_neg,
+    G2_smul := H.G2_smul, sInv := H.sInv, sEnc := H.sEnc, sDec := H.sDec, okm := H.okm,
+    g1Enc := H.g1Enc, g1Dec := H.g1Dec, g2Enc := H.g2Enc, g2Dec := H.g2Dec, g2EncU := H.g2EncU,
+    g2DecU := H.g2DecU, bp2 := H.bp2, pairingCheck := H.pairingCheck,
+    expand := fun _ _ _ _ => rfl, hashToG1 := H.hashToG1 }
 
 end nat
 
